@@ -57,13 +57,21 @@ Proof. unf_consts. destruct (cfg_ipv4 c); lia. Qed.
 
 Lemma delivered_fields s n :
   0 <= n ->
-  min_ss (on_payload_delivered s n) = Z.max (min_ss s) (Z.min n U16_MAX) /\
-  max_ss (on_payload_delivered s n) = Z.max (max_ss s) (Z.max (min_ss s) (Z.min n U16_MAX)) /\
+  min_ss (on_payload_delivered s n) = Z.max (min_ss s) (Z.min (Z.min n U16_MAX) (max_ss s)) /\
+  max_ss (on_payload_delivered s n) = max_ss s /\
   cd_rem (on_payload_delivered s n) = cd_rem s /\ cd_max (on_payload_delivered s n) = cd_max s.
 Proof.
   intro Hn. unfold on_payload_delivered; cbn [min_ss max_ss cd_rem cd_max].
   assert (Hp : Z.min n U16_MAX mod M16 = Z.min n U16_MAX) by (unfold U16_MAX, M16; lia).
   rewrite Hp. auto.
+Qed.
+
+(* whatever the reported size (any Z): max_ss is untouched, min_ss only grows and stays <= max_ss *)
+Lemma delivered_monotone s n : wf s ->
+  max_ss (on_payload_delivered s n) = max_ss s /\
+  min_ss s <= min_ss (on_payload_delivered s n) <= max_ss s.
+Proof.
+  unfold wf, on_payload_delivered; cbn [min_ss max_ss]. unfold U16_MAX, M16. lia.
 Qed.
 
 Lemma delivered_wf s n : wf s -> wf (on_payload_delivered s n).
@@ -248,27 +256,18 @@ Lemma run_min_le_max c ops s' :
   ss_run (ss_new c) ops = Some s' -> 0 <= min_ss s' <= max_ss s' /\ max_ss s' <= U16_MAX.
 Proof. intros Hc Hd H. exact (run_wf ops _ _ (wf_lt_wf _ (new_wf_lt c Hc)) Hd H). Qed.
 
-(* ------------------------------------------------------------------ no panic below 65535 *)
-Definition small_op (o : ss_op) : bool :=
-  match o with
-  | OpNew c => cfg_in_range c
-  | OpDelivered n => (0 <=? n) && (n <? U16_MAX)
-  | OpProbeFailed n => 0 <=? n
-  | _ => true
-  end.
-
-Lemma small_op_in_domain o : small_op o = true -> op_in_domain o = true.
-Proof. destruct o; cbn [small_op op_in_domain]; intro H; try exact H; try discriminate; try reflexivity; lia. Qed.
-
-Lemma step_small s o : wf_lt s -> small_op o = true ->
+(* ------------------------------------------------------------------ no panic, ever *)
+(* max_ss never grows, so a state reached from `new` stays below 65535, the one value at which
+   next_probe overflows. *)
+Lemma step_total s o : wf_lt s -> op_in_domain o = true ->
   exists s' ret, ss_step s o = Some (s', ret) /\ wf_lt s'.
 Proof.
   intros Hw Hd. pose proof (wf_lt_wf s Hw) as Hw0.
-  destruct o as [c|n| |n|]; cbn [ss_step small_op] in *.
+  destruct o as [c|n| |n|]; cbn [ss_step op_in_domain] in *.
   - eexists _, _. split; [reflexivity|]. apply new_wf_lt; assumption.
   - eexists _, _. split; [reflexivity|].
-    destruct (delivered_fields s n ltac:(lia)) as (Hm & Hx & _).
-    unfold wf_lt in *. rewrite Hm, Hx. unfold U16_MAX in *. lia.
+    destruct (delivered_monotone s n Hw0) as [Hx Hm].
+    unfold wf_lt in *. rewrite Hx. lia.
   - destruct (next_segment_size s) as [[s1 r]|] eqn:E.
     + cbn [bind fst snd]. eexists _, _. split; [reflexivity|].
       destruct (next_size_spec s s1 r Hw0 E) as (Hm & Hx & _).
@@ -280,96 +279,104 @@ Proof.
   - eexists _, _. split; [reflexivity|]. exact Hw.
 Qed.
 
-Lemma run_small : forall ops s, wf_lt s -> forallb small_op ops = true ->
+Lemma run_total : forall ops s, wf_lt s -> forallb op_in_domain ops = true ->
   exists s', ss_run s ops = Some s' /\ wf_lt s'.
 Proof.
   induction ops as [|o ops IH]; cbn [ss_run forallb]; intros s Hw Hd.
   - eauto.
   - apply andb_true_iff in Hd as [Hd1 Hd2].
-    destruct (step_small s o Hw Hd1) as (s1 & ret & E & Hw1). rewrite E. cbn [bind fst].
+    destruct (step_total s o Hw Hd1) as (s1 & ret & E & Hw1). rewrite E. cbn [bind fst].
     apply IH; assumption.
 Qed.
 
-Lemma no_panic c ops : cfg_in_range c = true -> forallb small_op ops = true ->
+Lemma no_panic c ops : cfg_in_range c = true -> forallb op_in_domain ops = true ->
   ss_run (ss_new c) ops <> None.
 Proof.
-  intros Hc Hd. destruct (run_small ops _ (new_wf_lt c Hc) Hd) as (s' & E & _).
+  intros Hc Hd. destruct (run_total ops _ (new_wf_lt c Hc) Hd) as (s' & E & _).
   rewrite E. discriminate.
 Qed.
 
-(* the overflow exists: one payload of 65535 bytes reported delivered, then a probe *)
-Definition cfg_default : ss_config := {| cfg_ipv4 := true; cfg_link_mtu := 1500; cfg_cooldown := 3 |}.
-
-Lemma overflow_at_u16_max_refuted : exists c ops,
-  cfg_in_range c = true /\ forallb op_in_domain ops = true /\
-  ss_run (ss_new c) ops = None /\
-  (* what a build without overflow checks hands out as the next segment size *)
-  (exists s, ss_run (ss_new c) (removelast ops) = Some s /\ next_probe_wrapping s = 0).
+(* the overflow state of next_probe (min_ss = max_ss = 65535) is unreachable *)
+Lemma overflow_unreachable c ops s' :
+  cfg_in_range c = true -> forallb op_in_domain ops = true ->
+  ss_run (ss_new c) ops = Some s' ->
+  max_ss s' < U16_MAX /\ next_probe s' = Some (probe_value s') /\
+  is_probing s' = Some (min_ss s' <? max_ss s').
 Proof.
-  exists cfg_default, [OpDelivered 65535; OpDisarm; OpNextSize].
-  repeat split; try (vm_compute; reflexivity).
-  eexists. split; vm_compute; reflexivity.
+  intros Hc Hd H. destruct (run_total ops _ (new_wf_lt c Hc) Hd) as (s1 & E & Hw).
+  rewrite E in H. injection H as <-. pose proof (wf_lt_wf s1 Hw) as Hw0.
+  unfold wf_lt in Hw. split; [lia|].
+  split; [apply next_probe_some | apply is_probing_some]; auto; lia.
 Qed.
 
-(* ------------------------------------------------------------------ ceiling *)
-Definition ceil_op_ok (c : Z) (o : ss_op) : bool :=
-  match o with
-  | OpNew _ => false
-  | OpDelivered n => (0 <=? n) && (n <=? c)
-  | OpProbeFailed n => 0 <=? n
-  | _ => true
-  end.
+(* ... and no observation of a trace is a panic *)
+Lemma trace_no_panic_gen : forall ops s, wf_lt s -> forallb op_in_domain ops = true ->
+  ~ In None (ss_trace s ops).
+Proof.
+  induction ops as [|o ops IH]; cbn [ss_trace forallb]; intros s Hw Hd HIn; [contradiction|].
+  apply andb_true_iff in Hd as [Hd1 Hd2].
+  destruct (step_total s o Hw Hd1) as (s1 & ret & E & Hw1). rewrite E in HIn.
+  pose proof (wf_lt_wf s1 Hw1) as Hw0.
+  unfold ss_observe in HIn. rewrite (is_probing_some s1 Hw0) in HIn by (unfold wf_lt in Hw1; lia).
+  cbn [bind] in HIn. destruct HIn as [H|H]; [discriminate|]. exact (IH s1 Hw1 Hd2 H).
+Qed.
 
-Lemma ceil_op_in_domain c o : ceil_op_ok c o = true -> op_in_domain o = true.
-Proof. destruct o; cbn [ceil_op_ok op_in_domain]; intro H; try exact H; try discriminate; try reflexivity; lia. Qed.
+Lemma trace_no_panic c ops : cfg_in_range c = true -> forallb op_in_domain ops = true ->
+  ~ In None (ss_trace (ss_new c) ops).
+Proof. intros Hc Hd. apply trace_no_panic_gen; [apply new_wf_lt; exact Hc|exact Hd]. Qed.
+
+Definition cfg_default : ss_config := {| cfg_ipv4 := true; cfg_link_mtu := 1500; cfg_cooldown := 3 |}.
+
+(* ------------------------------------------------------------------ ceiling *)
+(* no hypothesis on the sizes reported delivered or failed (any Z); only `New` is excluded,
+   because it installs another configuration with another ceiling *)
+Definition not_new (o : ss_op) : bool := match o with OpNew _ => false | _ => true end.
 
 Lemma step_ceiling c s o s' ret :
-  wf s -> max_ss s <= c -> ceil_op_ok c o = true -> ss_step s o = Some (s', ret) ->
-  max_ss s' <= c /\ (forall r, ret = Some r -> r <= c).
+  wf s -> max_ss s <= c -> not_new o = true -> ss_step s o = Some (s', ret) ->
+  wf s' /\ max_ss s' <= c /\ (forall r, ret = Some r -> r <= c).
 Proof.
-  intros Hw Hc Ho H. destruct o as [c0|n| |n|]; cbn [ss_step ceil_op_ok] in *.
+  intros Hw Hc Ho H. destruct o as [c0|n| |n|]; cbn [ss_step not_new] in *.
   - discriminate.
-  - injection H as <- <-. split; [|discriminate].
-    destruct (delivered_fields s n ltac:(lia)) as (_ & Hx & _). rewrite Hx.
-    unfold wf in Hw. lia.
+  - injection H as <- <-. split; [apply delivered_wf; exact Hw|]. split; [|discriminate].
+    destruct (delivered_monotone s n Hw) as [Hx _]. rewrite Hx. exact Hc.
   - destruct (next_segment_size s) as [[s1 r]|] eqn:E; [|discriminate].
     cbn [bind fst snd] in H. injection H as <- <-.
     destruct (next_size_spec s s1 r Hw E) as (_ & Hx & _ & _ & _ & Hr & _).
+    split; [eapply next_size_wf; eauto|].
     rewrite Hx. split; [assumption|]. intros r0 H0. injection H0 as <-. lia.
-  - injection H as <- <-. split; [|discriminate].
+  - injection H as <- <-. split; [apply failed_wf; exact Hw|]. split; [|discriminate].
     destruct (failed_monotone s n Hw). lia.
-  - injection H as <- <-. split; [assumption|discriminate].
+  - injection H as <- <-. split; [exact Hw|]. split; [assumption|discriminate].
 Qed.
 
 Lemma ceiling_invariant_gen : forall ops c s s',
-  wf s -> max_ss s <= c -> forallb (ceil_op_ok c) ops = true ->
-  ss_run s ops = Some s' -> max_ss s' <= c.
+  wf s -> max_ss s <= c -> forallb not_new ops = true ->
+  ss_run s ops = Some s' -> wf s' /\ max_ss s' <= c.
 Proof.
   induction ops as [|o ops IH]; cbn [ss_run forallb]; intros c s s' Hw Hc Hd H.
-  - injection H as <-. exact Hc.
+  - injection H as <-. auto.
   - apply andb_true_iff in Hd as [Hd1 Hd2].
     destruct (ss_step s o) as [[s1 ret]|] eqn:E; [|discriminate]. cbn [bind fst] in H.
-    pose proof (step_wf s o s1 ret Hw (ceil_op_in_domain _ _ Hd1) E) as Hw1.
-    destruct (step_ceiling c s o s1 ret Hw Hc Hd1 E) as [Hc1 _].
+    destruct (step_ceiling c s o s1 ret Hw Hc Hd1 E) as (Hw1 & Hc1 & _).
     exact (IH c s1 s' Hw1 Hc1 Hd2 H).
 Qed.
 
+(* whatever sizes the peer uses: every Delivered n, every ProbeFailed n, n any integer *)
 Lemma ceiling_invariant c ops s' :
-  cfg_in_range c = true -> forallb (ceil_op_ok (ceiling_of c)) ops = true ->
+  cfg_in_range c = true -> forallb not_new ops = true ->
   ss_run (ss_new c) ops = Some s' ->
   mss s' <= max_ss s' /\ max_ss s' <= ceiling_of c.
 Proof.
   intros Hc Hd H. pose proof (wf_lt_wf _ (new_wf_lt c Hc)) as Hw.
-  split.
-  - assert (Hd' : forallb op_in_domain ops = true).
-    { rewrite forallb_forall in *. intros o Ho. eapply ceil_op_in_domain; eauto. }
-    destruct (run_wf ops _ _ Hw Hd' H) as [Hw' _]. unfold mss. lia.
-  - eapply ceiling_invariant_gen; eauto. destruct (new_shape c) as (_ & Hx & _). lia.
+  destruct (new_shape c) as (_ & Hx & _).
+  destruct (ceiling_invariant_gen ops (ceiling_of c) _ s' Hw ltac:(lia) Hd H) as [[Hw1 _] Hc1].
+  unfold mss. split; [lia|exact Hc1].
 Qed.
 
 (* every size handed out (and every max_ss observed) stays at or below the ceiling *)
 Lemma trace_le_ceiling_gen : forall ops c s mn mx pr ret,
-  wf s -> max_ss s <= c -> forallb (ceil_op_ok c) ops = true ->
+  wf s -> max_ss s <= c -> forallb not_new ops = true ->
   In (Some (mn, mx, pr, ret)) (ss_trace s ops) ->
   mn <= mx /\ mx <= c /\ (forall r, ret = Some r -> r <= c).
 Proof.
@@ -377,8 +384,7 @@ Proof.
     [contradiction|].
   apply andb_true_iff in Hd as [Hd1 Hd2].
   destruct (ss_step s o) as [[s1 ret1]|] eqn:E.
-  - pose proof (step_wf s o s1 ret1 Hw (ceil_op_in_domain _ _ Hd1) E) as Hw1.
-    destruct (step_ceiling c s o s1 ret1 Hw Hc Hd1 E) as [Hc1 Hr1].
+  - destruct (step_ceiling c s o s1 ret1 Hw Hc Hd1 E) as (Hw1 & Hc1 & Hr1).
     unfold ss_observe in HIn. destruct (is_probing s1) as [b|]; cbn [bind] in HIn.
     + destruct HIn as [H|H].
       * injection H as <- <- <- <-. destruct Hw1. repeat split; auto; lia.
@@ -388,7 +394,7 @@ Proof.
 Qed.
 
 Lemma trace_le_ceiling c ops mn mx pr ret :
-  cfg_in_range c = true -> forallb (ceil_op_ok (ceiling_of c)) ops = true ->
+  cfg_in_range c = true -> forallb not_new ops = true ->
   In (Some (mn, mx, pr, ret)) (ss_trace (ss_new c) ops) ->
   mn <= mx /\ mx <= ceiling_of c /\ (forall r, ret = Some r -> r <= ceiling_of c).
 Proof.
@@ -397,22 +403,19 @@ Proof.
   - destruct (new_shape c) as (_ & Hx & _). lia.
 Qed.
 
-(* D3 on the model: a payload size reported by the peer lifts mss above the ceiling *)
-Lemma peer_payload_lifts_ceiling_refuted : exists c ops s',
-  cfg_in_range c = true /\ forallb op_in_domain ops = true /\
-  ss_run (ss_new c) ops = Some s' /\
-  ceiling_of c = 1452 /\ mss s' = 5000 /\ max_ss s' = 5000 /\ mss s' > ceiling_of c.
-Proof.
-  exists cfg_default, [OpDelivered 5000]. eexists.
-  split; [vm_compute; reflexivity|]. split; [vm_compute; reflexivity|].
-  split; [vm_compute; reflexivity|]. repeat split; vm_compute; reflexivity.
-Qed.
+(* the former D3 witness: a 5000-byte payload from the peer on a 1500 link now stops at the ceiling *)
+Example ex_peer_payload_capped : exists s',
+  ss_run (ss_new cfg_default) [OpDelivered 5000] = Some s' /\
+  ceiling_of cfg_default = 1452 /\ mss s' = 1452 /\ max_ss s' = 1452.
+Proof. eexists. repeat split; vm_compute; reflexivity. Qed.
 
-(* the same through the `New` op, from any prior state *)
-Lemma peer_payload_lifts_ceiling_refuted_new : forall s0, exists s',
-  ss_run s0 [OpNew cfg_default; OpDelivered 5000] = Some s' /\
-  mss s' = 5000 /\ mss s' > ceiling_of cfg_default.
-Proof. intro s0. eexists. split; [vm_compute; reflexivity|]. split; vm_compute; reflexivity. Qed.
+Lemma mtu_d3_ok c n : cfg_in_range c = true -> c14_d3_ok c (mtu_d3 c n) = true.
+Proof.
+  intro Hc. pose proof (wf_lt_wf _ (new_wf_lt c Hc)) as Hw.
+  destruct (new_shape c) as (Hm & Hx & _). destruct (new_bounds c Hc) as [Hb1 Hb2].
+  destruct (delivered_monotone (ss_new c) n Hw) as [Hx' Hm'].
+  unfold mtu_d3, c14_d3_ok, mss. rewrite Hx', Hx. lia.
+Qed.
 
 (* ------------------------------------------------------------------ search invariant *)
 (* a path that delivers exactly the payload sizes <= P *)
@@ -469,11 +472,10 @@ Lemma search_invariant_new c P ops :
   exists s', ss_run (ss_new c) ops = Some s' /\ min_ss s' <= P <= max_ss s'.
 Proof.
   intros Hc HP Hd. destruct (new_shape c) as (Hm & Hx & _). destruct (new_bounds c Hc) as [Hb1 Hb2].
-  assert (Hsmall : forallb small_op ops = true).
+  assert (Hdom : forallb op_in_domain ops = true).
   { rewrite forallb_forall in *. intros o Ho. specialize (Hd o Ho).
-    destruct o; cbn [path_op_ok small_op] in *; unfold U16_MAX in *;
-      try discriminate; try reflexivity; lia. }
-  destruct (run_small ops _ (new_wf_lt c Hc) Hsmall) as (s' & E & _).
+    apply (path_op_in_domain P o); [lia|exact Hd]. }
+  destruct (run_total ops _ (new_wf_lt c Hc) Hdom) as (s' & E & _).
   exists s'. split; [exact E|].
   assert (Hw : wf (ss_new c)) by (apply wf_lt_wf, new_wf_lt; assumption).
   assert (HP' : min_ss (ss_new c) <= P <= max_ss (ss_new c)) by lia.
@@ -732,13 +734,14 @@ Example ex_search_ipv6_small :
   mtu_search {| cfg_ipv4 := false; cfg_link_mtu := 49; cfg_cooldown := 0 |} 7 = Some (0, 1, 1, false).
 Proof. vm_compute. reflexivity. Qed.
 
-Example ex_ceil_ops_ok :
-  forallb (ceil_op_ok (ceiling_of cfg_default)) [OpDelivered 1452; OpDisarm; OpNextSize; OpProbeFailed 70000] = true.
+Example ex_not_new_hostile :
+  forallb not_new [OpDelivered 5000; OpDelivered 18446744073709551615; OpDisarm; OpNextSize; OpProbeFailed 70000] = true.
 Proof. vm_compute. reflexivity. Qed.
 
 Example ex_truncation :
-  (* on_probe_failed(70000): 70000 as u16 = 4464 *)
-  max_ss (on_probe_failed (on_payload_delivered (ss_new cfg_default) 6000) 70000) = 6000
+  (* on_probe_failed(70000): 70000 as u16 = 4464, below min_ss: max_ss stops at min_ss *)
+  let c9000 := {| cfg_ipv4 := true; cfg_link_mtu := 9000; cfg_cooldown := 3 |} in
+  max_ss (on_probe_failed (on_payload_delivered (ss_new c9000) 6000) 70000) = 6000
   /\ max_ss (on_probe_failed (ss_new cfg_default) 66000) = 528.
 Proof. split; vm_compute; reflexivity. Qed.
 
@@ -746,8 +749,8 @@ Proof. split; vm_compute; reflexivity. Qed.
 Definition acc_rel (a : c14_acc) (s : segsizes) : Prop :=
   a_min a = min_ss s /\ a_max a = max_ss s /\ a_cd a = cd_rem s /\ a_cdmax a = cd_max s /\
   wf s /\
-  (a_big a = false -> max_ss s < U16_MAX) /\
-  (a_ceil_ok a = true -> max_ss s <= a_ceil a) /\
+  a_ceil a < U16_MAX /\
+  max_ss s <= a_ceil a /\
   (a_search a = true -> min_ss s <= a_lo a /\ a_hi a <= max_ss s) /\
   0 <= a_maxsent a <= U16_MAX.
 
@@ -769,7 +772,7 @@ Proof. apply Bool.eqb_reflx. Qed.
 
 Ltac rel_split :=
   unfold acc_rel;
-  cbn [a_min a_max a_cd a_cdmax a_big a_ceil_ok a_search a_maxsent a_ceil a_lo a_hi];
+  cbn [a_min a_max a_cd a_cdmax a_search a_maxsent a_ceil a_lo a_hi];
   split; [|split; [|split; [|split; [|split; [|split; [|split; [|split]]]]]]].
 Ltac rel_eqs := solve [reflexivity | assumption | symmetry; assumption | congruence].
 
@@ -780,7 +783,7 @@ Lemma step_rel a s o s' ret :
   c14_obs_check a o a' (min_ss s') (max_ss s') (min_ss s' <? max_ss s') ret = true /\
   acc_rel a' s'.
 Proof.
-  intros (Hmin & Hmax & Hcd & Hcdm & Hw & Hbig & Hceil & Hsearch & Hsent) Hd H.
+  intros (Hmin & Hmax & Hcd & Hcdm & Hw & Hclt & Hceil & Hsearch & Hsent) Hd H.
   pose proof (step_wf s o s' ret Hw Hd H) as Hw'.
   cbv zeta. unfold c14_obs_check. rewrite eqb_ltb_refl.
   assert (Hwfb : (0 <=? min_ss s') && (min_ss s' <=? max_ss s') && (max_ss s' <=? U16_MAX) = true)
@@ -788,45 +791,32 @@ Proof.
   rewrite Hwfb. cbn [andb].
   destruct o as [c|n| |n|]; cbn [ss_step op_in_domain] in H, Hd.
   - (* New *)
-    injection H as <- <-. cbn [c14_acc_next c14_ret_check a_ceil_ok a_search andb].
-    split; [reflexivity|].
+    injection H as <- <-. cbn [c14_acc_next c14_ret_check a_search a_ceil andb].
     destruct (new_shape c) as (Hm & Hx & Hc1 & Hc2). destruct (new_bounds c Hd) as [Hb1 Hb2].
+    split; [rewrite Hx; lia|].
     rel_split.
     1-4: rel_eqs.
     + exact Hw'.
-    + intros _. rewrite Hx. unfold U16_MAX. lia.
-    + discriminate.
+    + unfold U16_MAX. lia.
+    + lia.
     + discriminate.
     + exact Hsent.
   - (* Delivered *)
     injection H as <- <-.
     destruct (delivered_fields s n ltac:(lia)) as (Hm & Hx & Hc1 & Hc2).
-    cbn [c14_acc_next c14_ret_check a_ceil_ok a_search a_ceil a_lo a_hi andb].
+    cbn [c14_acc_next c14_ret_check a_search a_ceil a_lo a_hi andb].
     destruct Hw as [Hw1 Hw2].
     split.
-    + destruct (a_ceil_ok a) eqn:Eck; cbn [andb].
-      * destruct (Z.leb_spec n (a_ceil a)) as [Hle|Hgt].
-        -- specialize (Hceil eq_refl).
-           replace (max_ss (on_payload_delivered s n) <=? a_ceil a) with true
-             by (rewrite Hx; unfold U16_MAX in *; lia).
-           cbn [andb].
-           destruct (a_search a) eqn:Es; cbn [andb]; [|reflexivity].
-           destruct ((n <=? a_maxsent a) && (Z.max (a_lo a) n <=? a_hi a)) eqn:Eg; [|reflexivity].
-           specialize (Hsearch eq_refl). rewrite Hm, Hx. unfold U16_MAX in *. lia.
-        -- cbn [andb].
-           destruct (a_search a) eqn:Es; cbn [andb]; [|reflexivity].
-           destruct ((n <=? a_maxsent a) && (Z.max (a_lo a) n <=? a_hi a)) eqn:Eg; [|reflexivity].
-           specialize (Hsearch eq_refl). rewrite Hm, Hx. unfold U16_MAX in *. lia.
-      * destruct (a_search a) eqn:Es; cbn [andb]; [|reflexivity].
-        destruct ((n <=? a_maxsent a) && (Z.max (a_lo a) n <=? a_hi a)) eqn:Eg; [|reflexivity].
-        specialize (Hsearch eq_refl). rewrite Hm, Hx. unfold U16_MAX in *. lia.
+    + replace (max_ss (on_payload_delivered s n) <=? a_ceil a) with true by (rewrite Hx; lia).
+      cbn [andb].
+      destruct (a_search a) eqn:Es; cbn [andb]; [|reflexivity].
+      destruct ((n <=? a_maxsent a) && (Z.max (a_lo a) n <=? a_hi a)) eqn:Eg; [|reflexivity].
+      specialize (Hsearch eq_refl). rewrite Hm, Hx. unfold U16_MAX in *. lia.
     + rel_split.
       1-4: rel_eqs.
       * exact Hw'.
-      * intro Hb. apply orb_false_iff in Hb as [Hb1 Hb2]. specialize (Hbig Hb1).
-        rewrite Hx. unfold U16_MAX in *. lia.
-      * intro Hb. apply andb_true_iff in Hb as [Hb1 Hb2]. specialize (Hceil Hb1).
-        rewrite Hx. unfold U16_MAX in *. lia.
+      * exact Hclt.
+      * rewrite Hx. exact Hceil.
       * intro Hb. apply andb_true_iff in Hb as [Hb Hb3]. apply andb_true_iff in Hb as [Hb1 Hb2].
         specialize (Hsearch Hb1). rewrite Hm, Hx. unfold U16_MAX in *. lia.
       * exact Hsent.
@@ -834,7 +824,7 @@ Proof.
     destruct (next_segment_size s) as [[s1 r]|] eqn:E; [|discriminate].
     cbn [bind fst snd] in H. injection H as <- <-.
     destruct (next_size_spec s s1 r Hw E) as (Hm & Hx & Hcm & Hcr & Hor & Hr & Hgt).
-    cbn [c14_acc_next c14_ret_check a_ceil_ok a_search a_ceil a_lo a_hi].
+    cbn [c14_acc_next c14_ret_check a_search a_ceil a_lo a_hi].
     unfold mss in *.
     split.
     + assert (Hret : (min_ss s1 =? a_min a) && (max_ss s1 =? a_max a) && (min_ss s1 <=? r) &&
@@ -846,79 +836,55 @@ Proof.
         destruct (Z.eq_dec r (min_ss s)) as [He|Hne]; [lia|].
         destruct (Hgt ltac:(lia)) as [Hg1 Hg2]. unfold probe_value in Hg2. lia. }
       rewrite Hret. cbn [andb].
-      destruct (a_ceil_ok a) eqn:Eck.
-      * specialize (Hceil eq_refl). replace (max_ss s1 <=? a_ceil a) with true by lia. cbn [andb].
-        destruct (a_search a) eqn:Es; [|reflexivity]. specialize (Hsearch eq_refl). lia.
-      * cbn [andb]. destruct (a_search a) eqn:Es; [|reflexivity]. specialize (Hsearch eq_refl). lia.
+      replace (max_ss s1 <=? a_ceil a) with true by lia. cbn [andb].
+      destruct (a_search a) eqn:Es; [|reflexivity]. specialize (Hsearch eq_refl). lia.
     + rel_split.
       1-2: rel_eqs.
       * rewrite Hcr, Hcd, Hcdm. reflexivity.
       * congruence.
       * exact Hw'.
-      * rewrite Hx. exact Hbig.
+      * exact Hclt.
       * rewrite Hx. exact Hceil.
       * rewrite Hm, Hx. exact Hsearch.
       * destruct Hw as [Hw1 Hw2]. lia.
   - (* ProbeFailed *)
     injection H as <- <-.
-    cbn [c14_acc_next c14_ret_check a_ceil_ok a_search a_ceil a_lo a_hi andb].
+    cbn [c14_acc_next c14_ret_check a_search a_ceil a_lo a_hi andb].
     destruct (failed_monotone s n Hw) as [Hm Hxle].
     split.
-    + destruct (a_ceil_ok a) eqn:Eck.
-      * specialize (Hceil eq_refl).
-        replace (max_ss (on_probe_failed s n) <=? a_ceil a) with true by lia. cbn [andb].
-        destruct (a_search a) eqn:Es; cbn [andb]; [|reflexivity].
-        destruct ((n <=? a_maxsent a) && (a_lo a <=? Z.min (a_hi a) (n - 1))) eqn:Eg; [|reflexivity].
-        specialize (Hsearch eq_refl).
-        destruct (failed_fields s n ltac:(lia)) as (_ & Hx & _). rewrite Hm, Hx. lia.
-      * cbn [andb]. destruct (a_search a) eqn:Es; cbn [andb]; [|reflexivity].
-        destruct ((n <=? a_maxsent a) && (a_lo a <=? Z.min (a_hi a) (n - 1))) eqn:Eg; [|reflexivity].
-        specialize (Hsearch eq_refl).
-        destruct (failed_fields s n ltac:(lia)) as (_ & Hx & _). rewrite Hm, Hx. lia.
+    + replace (max_ss (on_probe_failed s n) <=? a_ceil a) with true by lia. cbn [andb].
+      destruct (a_search a) eqn:Es; cbn [andb]; [|reflexivity].
+      destruct ((n <=? a_maxsent a) && (a_lo a <=? Z.min (a_hi a) (n - 1))) eqn:Eg; [|reflexivity].
+      specialize (Hsearch eq_refl).
+      destruct (failed_fields s n ltac:(lia)) as (_ & Hx & _). rewrite Hm, Hx. lia.
     + rel_split.
       1-4: rel_eqs.
       * exact Hw'.
-      * intro Hb. specialize (Hbig Hb). lia.
-      * intro Hb. specialize (Hceil Hb). lia.
+      * exact Hclt.
+      * lia.
       * intro Hb. apply andb_true_iff in Hb as [Hb Hb3]. apply andb_true_iff in Hb as [Hb1 Hb2].
         specialize (Hsearch Hb1).
         destruct (failed_fields s n ltac:(lia)) as (_ & Hx & _). rewrite Hm, Hx. lia.
       * exact Hsent.
   - (* Disarm *)
     injection H as <- <-.
-    cbn [c14_acc_next c14_ret_check a_ceil_ok a_search a_ceil a_lo a_hi andb].
+    cbn [c14_acc_next c14_ret_check a_search a_ceil a_lo a_hi andb].
     unfold disarm_cooldown; cbn [min_ss max_ss].
     split.
-    + destruct (a_ceil_ok a) eqn:Eck.
-      * specialize (Hceil eq_refl). replace (max_ss s <=? a_ceil a) with true by lia. cbn [andb].
-        destruct (a_search a) eqn:Es; [|reflexivity]. specialize (Hsearch eq_refl). lia.
-      * destruct (a_search a) eqn:Es; [|reflexivity]. specialize (Hsearch eq_refl). lia.
+    + replace (max_ss s <=? a_ceil a) with true by lia. cbn [andb].
+      destruct (a_search a) eqn:Es; [|reflexivity]. specialize (Hsearch eq_refl). lia.
     + rel_split; cbn [min_ss max_ss cd_rem cd_max].
       1-4: rel_eqs.
       * exact Hw.
-      * exact Hbig.
+      * exact Hclt.
       * exact Hceil.
       * exact Hsearch.
       * exact Hsent.
 Qed.
 
-(* a panic needs a payload >= 65535 reported delivered *)
-Lemma step_big a s o s' ret :
-  acc_rel a s -> op_in_domain o = true -> ss_step s o = Some (s', ret) ->
-  max_ss s' = U16_MAX ->
-  a_big a || match o with OpDelivered n => U16_MAX <=? n | _ => false end = true.
+Lemma acc_rel_wf_lt a s : acc_rel a s -> wf_lt s.
 Proof.
-  intros (Hmin & Hmax & Hcd & Hcdm & Hw & Hbig & _) Hd H Hx.
-  destruct (a_big a) eqn:Eb; [reflexivity|]. specialize (Hbig eq_refl). cbn [orb].
-  destruct o as [c|n| |n|]; cbn [ss_step op_in_domain] in H, Hd.
-  - injection H as <- _. pose proof (new_wf_lt c Hd) as Hn. unfold wf_lt in Hn. lia.
-  - injection H as <- _. destruct (delivered_fields s n ltac:(lia)) as (_ & Hx' & _).
-    destruct Hw. unfold U16_MAX in *. lia.
-  - destruct (next_segment_size s) as [[s1 r]|] eqn:E; [|discriminate].
-    cbn [bind fst] in H. injection H as <- _.
-    destruct (next_size_spec s s1 r Hw E) as (_ & Hx' & _). lia.
-  - injection H as <- _. destruct (failed_monotone s n Hw). lia.
-  - injection H as <- _. unfold disarm_cooldown in Hx; cbn [max_ss] in Hx. lia.
+  intros (_ & _ & _ & _ & [Hw1 Hw2] & Hclt & Hceil & _). unfold wf_lt. split; [exact Hw1|lia].
 Qed.
 
 Lemma obs_ok_model : forall ops a s,
@@ -926,21 +892,15 @@ Lemma obs_ok_model : forall ops a s,
 Proof.
   induction ops as [|o ops IH]; intros a s HR Hdom; [reflexivity|].
   cbn [forallb] in Hdom. apply andb_true_iff in Hdom as [Hd Hdom].
-  assert (Hw : wf s) by (destruct HR as (_ & _ & _ & _ & Hw & _); exact Hw).
-  cbn [ss_trace]. destruct (ss_step s o) as [[s' ret]|] eqn:E.
-  - pose proof (step_wf s o s' ret Hw Hd E) as Hw'.
-    destruct (ss_observe s' ret) as [ob|] eqn:Eo.
-    + rewrite (observe_some s' ret ob Hw' Eo). cbn [c14_obs_ok]. rewrite Hd. cbn [andb].
-      destruct (step_rel a s o s' ret HR Hd E) as [Hchk HR'].
-      rewrite Hchk. cbn [andb]. apply IH; assumption.
-    + cbn [c14_obs_ok]. rewrite Hd. cbn [andb].
-      apply (step_big a s o s' ret HR Hd E). apply (observe_none s' ret Hw' Eo).
-  - cbn [c14_obs_ok]. rewrite Hd. cbn [andb].
-    destruct o as [c|n| |n|]; cbn [ss_step] in E; try discriminate.
-    destruct (next_segment_size s) as [[s1 r]|] eqn:En; [discriminate|].
-    pose proof (next_size_none s Hw En) as Hx.
-    destruct HR as (_ & _ & _ & _ & _ & Hbig & _).
-    destruct (a_big a); [reflexivity|]. specialize (Hbig eq_refl). lia.
+  pose proof (acc_rel_wf_lt a s HR) as Hwl.
+  destruct (step_total s o Hwl Hd) as (s' & ret & E & Hwl').
+  pose proof (wf_lt_wf s' Hwl') as Hw'.
+  cbn [ss_trace]. rewrite E.
+  assert (Eo : ss_observe s' ret = Some (min_ss s', max_ss s', min_ss s' <? max_ss s', ret)).
+  { unfold ss_observe. rewrite (is_probing_some s' Hw') by (unfold wf_lt in Hwl'; lia). reflexivity. }
+  rewrite Eo. cbn [c14_obs_ok]. rewrite Hd. cbn [andb].
+  destruct (step_rel a s o s' ret HR Hd E) as [Hchk HR'].
+  rewrite Hchk. cbn [andb]. apply IH; assumption.
 Qed.
 
 Lemma model_trace_ok c ops :
@@ -953,8 +913,8 @@ Proof.
   unfold c14_acc0. rel_split.
   1-4: rel_eqs.
   - apply wf_lt_wf; exact Hw.
-  - intros _. unfold wf_lt in Hw. lia.
-  - intros _. lia.
+  - unfold U16_MAX. lia.
+  - lia.
   - intros _. lia.
   - unfold U16_MAX. lia.
 Qed.
@@ -969,11 +929,14 @@ Example ex_pred_default :
 Proof. vm_compute. reflexivity. Qed.
 
 (* the predicate rejects: a probe one below the midpoint (the `+ 1` dropped), a max_ss above the
-   ceiling without a large payload, an interval that lost a consistent P *)
+   ceiling, an interval that lost a consistent P, the trace of the code before the D3 repair,
+   and any panic *)
 Example ex_pred_rejects :
   c14_ok cfg_default [OpDisarm; OpNextSize]
     [Some (528, 1452, true, None); Some (528, 1452, true, Some 990)] = false /\
   c14_ok cfg_default [OpDelivered 100] [Some (528, 1500, true, None)] = false /\
   c14_ok cfg_default [OpDisarm; OpNextSize; OpProbeFailed 991]
-    [Some (528, 1452, true, None); Some (528, 1452, true, Some 991); Some (528, 900, true, None)] = false.
+    [Some (528, 1452, true, None); Some (528, 1452, true, Some 991); Some (528, 900, true, None)] = false /\
+  c14_ok cfg_default [OpDelivered 5000] [Some (5000, 5000, false, None)] = false /\
+  c14_ok cfg_default [OpDelivered 65535] [None] = false.
 Proof. repeat split; vm_compute; reflexivity. Qed.
